@@ -23,6 +23,7 @@ Expected ==
       H  == History(ch)
   IN [k |-> k,
       cells |-> [i \in 1..Len(U.cellq) |-> CellOrder(FCellSet(LC, U.cellq[i]))],
-      txs   |-> [i \in 1..Len(U.txq) |-> TxOrder(FTxSet(H, U.txq[i]))]]
+      txs   |-> [i \in 1..Len(U.txq) |-> TxOrder(FTxSet(H, U.txq[i]))],
+      gtxs  |-> [i \in 1..Len(U.txq) |-> TxGrouped(FTxSet(H, U.txq[i]))]]
 EmitExpect == PrintT(<<"EXPECT", ToJson(Expected)>>)
 =============================================================================
